@@ -327,6 +327,9 @@ class MinGenSet():
         Solves the minimum generating set problem. Returns `True` if the model was solved, `False` otherwise.
         """
         start_time = time.perf_counter()
+        # A (re-)solve starts from scratch: whatever an earlier solve() of this object found is no longer the answer of this run
+        self._is_solved = False
+        self._solution = None
 
         # Solve for increasing numbers of elements in the generating set
         # A minimum generating set can have more elements than there are numbers (e.g. numbers [1,2,4] and total 100
